@@ -328,18 +328,27 @@ def _grid_layout(kind, strand, f0, tail):
     elif kind == 3:  # three blocks, adjacent pair in the middle, annotation claims a frameshift at the adjacency
         cds = [[5, 10], [14, 19], [19, 14 + n - 5]]
         exons = [[5, 10], [14, 19], [19, 14 + n - 5]]
+    elif kind == 5:  # ONE exon whose CDS is two abutting blocks, the annotation claims a frameshift at the adjacency
+        cds = [[5, 12], [12, 5 + n]]
+        exons = [[2, 5 + n + 3]]
+    elif kind == 6:  # ONE exon, CDS of two abutting blocks in one consistent frame
+        cds = [[5, 11], [11, 5 + n]]
+        exons = [[3, 5 + n + 2]]
     else:  # CDS inside the middle exon of three; adjacent exon pair outside the CDS
         cds = [[12, 12 + n]]
         exons = [[0, 4], [4, 8], [10, 12 + n + 1], [12 + n + 4, 12 + n + 9]]
     fr = FM.consistent_frames(cds, strand, f0)
     if kind == 3:
         fr[1] = (fr[1] + 1) % 3  # the middle block is never the 5' one
+    if kind == 5:
+        k3 = 1 if strand == "+" else 0     # the 3' block carries the shifted annotation (never the 5' one)
+        fr[k3] = (fr[k3] + 1) % 3
     return exons, cds, fr
 
 
 def _grid_cases(stride):
     idx = 0
-    for kind, strand, f0, tail, first, stop, inframe in itertools.product(range(5), "+-", (0, 1, 2), (0, 1, 2), _FIRSTS, (True, False), (True, False)):
+    for kind, strand, f0, tail, first, stop, inframe in itertools.product(range(7), "+-", (0, 1, 2), (0, 1, 2), _FIRSTS, (True, False), (True, False)):
         idx += 1
         if idx % stride:
             continue
